@@ -207,8 +207,10 @@ def fromStrLegacy (s : List Char) : ParseRes :=
     | _, _, _, _ => .invalid
   | _ => .invalid
 
-/-- `FromStr` after the repair (`fix:` commit D2): out-of-range seconds are `InvalidFormat`. -/
-def fromStr (s : List Char) : ParseRes :=
+/-- `FromStr` after the repair for D2 (out-of-range seconds are `InvalidFormat`) and before the one
+for D25: the fields went through a `Duration`, which carries a fractional part of 250..255 over
+into the seconds - the text form of a non-canonical stamp did not read back as written. -/
+def fromStrNormalising (s : List Char) : ParseRes :=
   match splitn 3 s with
   | [a, b, c, d] =>
     match parseUnsigned 10 (U64 - 1) a, parseUnsigned 10 255 b,
@@ -218,6 +220,19 @@ def fromStr (s : List Char) : ParseRes :=
       else match new? (partsAsDuration secs frac) ctr nd with
         | some t => .ok t
         | none => .invalid
+    | _, _, _, _ => .invalid
+  | _ => .invalid
+
+/-- `FromStr` (current tree, fix D25): the four fields go back exactly where `Display` took them
+from: `(seconds << 32) | (fractional << 24) | (counter << 8) | node`. -/
+def fromStr (s : List Char) : ParseRes :=
+  match splitn 3 s with
+  | [a, b, c, d] =>
+    match parseUnsigned 10 (U64 - 1) a, parseUnsigned 10 255 b,
+          parseUnsigned 16 65535 c, parseUnsigned 10 255 d with
+    | some secs, some frac, some ctr, some nd =>
+      if secs > TIMESTAMP_MAX then .invalid
+      else .ok (secs * 4294967296 + frac * 16777216 + ctr * 256 + nd)
     | _, _, _, _ => .invalid
   | _ => .invalid
 
